@@ -166,15 +166,12 @@ example :
 
 /-! ## T3 literals -/
 
-/-- T3a (`int_spelling_partial`). `simple_literal` on an integer token: for
-    EVERY digit sequence, EVERY placement of digit-group underscores (any number
-    after any digit) and EVERY suffix of the table, the decoded value is the
-    Horner value of the digits (when it fits `i64`, as the implementation reads
-    literals), with that suffix.
-    Full statement (not proved here): the same through `Lexer::number`, i.e.
-    `decodeNumber xs xc (spellDigits ds ++ suffix) = …` — the split of the
-    source into digits and suffix is tied by the correspondence run only. -/
-theorem int_spelling_partial (d : Fin 10 × Nat) (ds : List (Fin 10 × Nat)) (suffix rest : List Char)
+/-- T3a-token. `simple_literal` on an integer token: for EVERY digit sequence,
+    EVERY placement of digit-group underscores (any number after any digit) and
+    EVERY suffix of the table, the decoded value is the Horner value of the
+    digits (when it fits `i64`, as the implementation reads literals), with that
+    suffix. (`int_spelling` below puts `Lexer::number` in front.) -/
+theorem int_token_value (d : Fin 10 × Nat) (ds : List (Fin 10 × Nat)) (suffix rest : List Char)
     (hs : suffix ∈ Literal.intSuffixes) (hr : horner 0 (d :: ds) < 2 ^ 63) :
     decodeNumTok { isFloat := false, num := spellDigits (d :: ds), suffix := suffix, rest := rest } =
       some (.int (horner 0 (d :: ds)) suffix) := by
@@ -188,8 +185,52 @@ theorem int_spelling_partial (d : Fin 10 × Nat) (ds : List (Fin 10 × Nat)) (su
 
 example : decodeNumTok { isFloat := false, num := "1_000__0_".toList, suffix := "u16".toList, rest := [] } =
     some (.int 10000 "u16".toList) := by
-  have := int_spelling_partial (1, 1) [(0, 0), (0, 0), (0, 2), (0, 1)] "u16".toList [] (by decide) (by decide)
+  have := int_token_value (1, 1) [(0, 0), (0, 0), (0, 2), (0, 1)] "u16".toList [] (by decide) (by decide)
   simpa [spellDigits, horner, digitChar] using this
+
+/-- T3a (`int_spelling`, the full statement). Through `Lexer::number` AND
+    `simple_literal`: for EVERY digit sequence, EVERY placement of digit-group
+    underscores, EVERY suffix of the table and EVERY following text `rest` at
+    which the documented token ends (`IntBoundary`: not an `XID_Continue`
+    character or `_`; after a literal without suffix also not a digit, an
+    exponent letter, or a `.` that starts a fraction — `10.hello`, `10..`,
+    `10._x` keep the integer; after a suffix `.` may follow: `5i32.to_string()`),
+    the model of `Lexer::number` splits the source into exactly the digits, the
+    suffix and `rest`, and `simple_literal` decodes the Horner value with that
+    suffix. `xs` / `xc` are unicode-ident's XID_Start / XID_Continue (parameters;
+    the only fact used is that the suffix letters and digits are XID_Continue). -/
+theorem int_spelling (xs xc : Char → Bool) (d : Fin 10 × Nat) (ds : List (Fin 10 × Nat))
+    (suffix rest : List Char) (hs : suffix ∈ Literal.intSuffixes) (hx : ∀ c ∈ suffix, xc c = true)
+    (hb : IntBoundary xs xc suffix rest) (hr : horner 0 (d :: ds) < 2 ^ 63) :
+    ∃ t, lexNumber xs xc (spellDigits (d :: ds) ++ (suffix ++ rest)) = some t ∧ t.rest = rest ∧
+      decodeNumTok t = some (.int (horner 0 (d :: ds)) suffix) :=
+  ⟨_, lexNumber_int xs xc d ds suffix rest hs hx hb, rfl, int_token_value d ds suffix rest hs hr⟩
+
+/-- … and for a complete literal (nothing after it) -/
+theorem int_spelling_complete (xs xc : Char → Bool) (d : Fin 10 × Nat) (ds : List (Fin 10 × Nat))
+    (suffix : List Char) (hs : suffix ∈ Literal.intSuffixes) (hx : ∀ c ∈ suffix, xc c = true)
+    (hr : horner 0 (d :: ds) < 2 ^ 63) :
+    decodeNumber xs xc (spellDigits (d :: ds) ++ suffix) = some (.int (horner 0 (d :: ds)) suffix) := by
+  have h := lexNumber_int xs xc d ds suffix [] hs hx
+    ⟨trivial, fun _ => ⟨trivial, Or.inl trivial⟩⟩
+  simp only [List.append_nil] at h
+  simp only [decodeNumber, h, List.isEmpty_nil, if_true]
+  exact int_token_value d ds suffix [] hs hr
+
+/-- non-vacuity: `5i32.to_string()` — the token ends before the `.`; `1_0.abs()`
+    and `7..` keep the integer (edge case); `1_000__0_u16` complete -/
+example :
+    lexNumber (fun c => c.isAlpha) (fun c => c.isAlphanum) "5i32.to_string()".toList =
+      some { isFloat := false, num := "5".toList, suffix := "i32".toList, rest := ".to_string()".toList } ∧
+    lexNumber (fun c => c.isAlpha) (fun c => c.isAlphanum) "1_0.abs()".toList =
+      some { isFloat := false, num := "1_0".toList, suffix := [], rest := ".abs()".toList } ∧
+    IntBoundary (fun c => c.isAlpha) (fun c => c.isAlphanum) "i32".toList ('.' :: "to_string()".toList) ∧
+    IntBoundary (fun c => c.isAlpha) (fun c => c.isAlphanum) [] ('.' :: 'a' :: "bs()".toList) ∧
+    decodeNumber (fun c => c.isAlpha) (fun c => c.isAlphanum) "1_000__0_u16".toList = some (.int 10000 "u16".toList) := by
+  refine ⟨by decide, by decide, ⟨?_, fun h => by simp at h⟩, ⟨?_, fun _ => ⟨?_, Or.inr ⟨'a', "bs()".toList, rfl, by decide⟩⟩⟩, by decide⟩
+  · show ((fun c : Char => c.isAlphanum) '.' || '.' == '_') = false; decide
+  · show ((fun c : Char => c.isAlphanum) '.' || '.' == '_') = false; decide
+  · show isRotoDigit '.' = false; decide
 
 /-- T3b. Hexadecimal literals, AS numbers, dotted quads and `ip / len`: the
     decoders on concrete spellings of every shape (upper/lower case digits,
